@@ -18,9 +18,9 @@
   `len t - len suffix`.
 
   Reals are carried as their decimal token (what `repr` yields and `float` reads back; that
-  `float(repr(x)) == x` is the trusted CPython fact).  Character classes (`isnumeric`,
-  `isalpha`, `isspace`) are the ASCII ones; written text never shows a non-ASCII character to
-  a class test (they only occur inside strings and after `0c`).
+  `float(repr(x)) == x` is the trusted CPython fact).  Character classes: `isnumeric`/`isdigit` and `isspace` are the ASCII ones, `isalpha` is ASCII plus the
+  letter ranges of `isUniLetter`; other non-ASCII characters reach a class test only in symbol names,
+  and such names are outside `WFData`.
   numpy's `kg_asarray` (lists become arrays; a *regular all-numeric* nest that mixes integers
   and reals is coerced to reals) is outside the model: `noCoerce` names the values it leaves
   alone, which is every value Klong itself constructs.
@@ -44,7 +44,16 @@ deriving Repr, BEq
 /-! ### character classes (ASCII part of str.isnumeric / isalpha / isspace) -/
 
 def isDigit (c : Char) : Bool := 48 ≤ c.toNat && c.toNat ≤ 57
-def isAlpha (c : Char) : Bool := (65 ≤ c.toNat && c.toNat ≤ 90) || (97 ≤ c.toNat && c.toNat ≤ 122)
+/-- letters outside ASCII that the model knows: Latin-1 and Latin Extended-A letters, the Greek and
+    Cyrillic basic alphabets, CJK unified ideographs (a part of what `str.isalpha` accepts; the harness
+    checks every one of these code points against `str.isalpha`) -/
+def isUniLetter (c : Char) : Bool :=
+  let n := c.toNat
+  (0xC0 ≤ n && n ≤ 0xD6) || (0xD8 ≤ n && n ≤ 0xF6) || (0xF8 ≤ n && n ≤ 0x17F) ||
+  (0x391 ≤ n && n ≤ 0x3A1) || (0x3A3 ≤ n && n ≤ 0x3A9) || (0x3B1 ≤ n && n ≤ 0x3C9) ||
+  (0x410 ≤ n && n ≤ 0x44F) || (0x4E00 ≤ n && n ≤ 0x9FEF)
+def isAlpha (c : Char) : Bool :=
+  (65 ≤ c.toNat && c.toNat ≤ 90) || (97 ≤ c.toNat && c.toNat ≤ 122) || isUniLetter c
 /-- types.py `is_symbolic` -/
 def isSymbolic (c : Char) : Bool := isAlpha c || isDigit c || c == '.'
 def isSpace (c : Char) : Bool := c == ' ' || (9 ≤ c.toNat && c.toNat ≤ 13) || (28 ≤ c.toNat && c.toNat ≤ 31)
@@ -617,6 +626,13 @@ def handle (s : State) (ws : List String) : State × String :=
     | some t => (s, "ok " ++ showRead t)
     | none => (s, "bad-op")
   | ["r"] => (s, "ok " ++ showRead [])
+  | ["cls", x] =>
+    -- character classes of one code point
+    match x.toNat? with
+    | some n =>
+      let c := Char.ofNat n
+      (s, s!"ok alpha={b01 (isAlpha c)} digit={b01 (isDigit c)} space={b01 (isSpace c)} symbolic={b01 (isSymbolic c)}")
+    | none => (s, "bad-op")
   | ["ff", x] =>
     -- x:$$x
     match parseVal x with
